@@ -51,7 +51,9 @@ class Field:
     """ident: None for unnamed; ty: rust type; naming: list of ('short', None|'x') / ('long', None|'n');
     env: var or None; consumer: None | 'argument' | 'positional' | 'switch' | ('flag', a, b) | ('req_flag', v);
     metavar: for argument/positional; post: list of postprocessing annotation strings; doc: help"""
-    def __init__(self, ident, ty, naming=(), env=None, consumer=None, metavar=None, post=(), doc=None, doc_style=None):
+    def __init__(self, ident, ty, naming=(), env=None, consumer=None, metavar=None, post=(), doc=None, doc_style=None, env2=None):
+        # env2: a second variable, written after the names (first one before them)
+        self.env2 = env2
         # doc_style: None: `/// text`; "attr": `#[doc = "text"]` (what a declarative macro emits,
         # no leading space); "tight": `///text`
         self.doc_style = doc_style
@@ -69,7 +71,11 @@ class Field:
             else:
                 parts.append("long(%s)" % rs_str(val))
         if self.env:
-            parts.append("env(%s)" % rs_str(self.env))
+            if self.env2:
+                parts.insert(0, "env(%s)" % rs_str(self.env))
+                parts.append("env(%s)" % rs_str(self.env2))
+            else:
+                parts.append("env(%s)" % rs_str(self.env))
         if self.consumer == "argument":
             parts.append("argument(%s)" % rs_str(self.metavar) if self.metavar else "argument")
         elif self.consumer == "positional":
@@ -130,6 +136,8 @@ class Field:
                 names.append("long(%s)" % rs_str(kebab(self.ident)))
         if self.env:
             names.append("env(%s)" % rs_str(self.env))
+            if self.env2:
+                names.append("env(%s)" % rs_str(self.env2))
         help_ = ".help(%s)" % rs_str(doc_to_help(self.doc)) if self.doc else ""
         ty = inner if inner else None
         if cons == "switch":
@@ -188,6 +196,7 @@ def single_field_specs():
             anns.append(dict(env="BPAFMC_DERIVE", naming=[("long", None)]))
             anns.append(dict(post=["hide"]))
             if ident in IDENTS[:2]:
+                anns.append(dict(env="BPAFMC_DERIVE", env2="BPAFMC_DERIVE_B", naming=[("long", None)], doc="two variables"))
                 anns.append(dict(doc="help without a leading space", doc_style="attr"))
                 anns.append(dict(doc="help right after the slashes\nsecond line", doc_style="tight", naming=[("long", None)]))
             if shape in ("direct", "optional", "multiple"):
